@@ -1,9 +1,9 @@
 (* Legacy body decoders of Pose.read: v0.1 (pose_body.py:149-189) and v0.0 (numpy/pose_body.py:54-108),
    as programs over the reader interface of base/Prog.v, plugged into PoseRead.read_body_with.
    The model is of the source WITH the two proposed repairs
-     F4a  read_v0_1 asks reader.bytes_remaining() (bytes up to the end of the data source) instead of
+     F4i  read_v0_1 asks reader.bytes_remaining() (bytes up to the end of the data source) instead of
           bytes_left() (which on a BytesIOReader counts only the bytes fetched so far);
-     F4c  read_v0_0 masks a point when its confidence == 0 (the constructor's rule), not when not (> 0).
+     F4iii  read_v0_0 masks a point when its confidence == 0 (the constructor's rule), not when not (> 0).
    Definitions only. *)
 From Coq Require Import ZArith NArith List Bool SpecFloat.
 Require Import ListN Result Bytes Utf8 Utf8S F32 Prog Codec PoseRead.
@@ -46,7 +46,7 @@ Definition read_v0_1 (h : header) (sf ef : option Z) : prog body :=
   dop P <- rd_u16;                                     (* _people *)
   let T := total_points h in
   dop D <- plift (num_dims h);                         (* header.num_dims(): ValueError without components *)
-  BytesLeft (fun left =>                               (* reader.bytes_remaining()  [F4a] *)
+  BytesLeft (fun left =>                               (* reader.bytes_remaining()  [F4i] *)
   (* _frames = int(left / (_people * _points * (_dims + 1) * 4)): the 16-bit field is ignored *)
   dop F <- plift (py_int_truediv left (Z.of_N P * Z.of_N T * (D + 1) * 4));
   dop dat <- read_frames F (Z.of_N (P * T) * D) sf ef;
@@ -73,7 +73,7 @@ Definition rd_comp00 (c : component) : prog (N * frame00) :=
     if L <? 2 then Fail Value else
     let rs := rows (N.to_nat n) (N.to_nat L) (words32 (N.to_nat (n * L)) b) in
     let conf := map (fun r => last r 0) rs in
-    Ret (L, (flat_map (@removelast N) rs, conf, map is_zero32 conf))).   (* where(confidence != 0, 0, 1)  [F4c] *)
+    Ret (L, (flat_map (@removelast N) rs, conf, map is_zero32 conf))).   (* where(confidence != 0, 0, 1)  [F4iii] *)
 Fixpoint all_eq (l : list N) : bool :=
   match l with a :: ((b :: _) as r) => (a =? b) && all_eq r | _ => true end.
 (* one person: advance over the person id, read every component; only for pid == 0 are the parts
@@ -127,7 +127,7 @@ Definition c04_legacy (v : vclass) (h : header) (a : rargs) : prog body :=
   | _ => Fail NotImplemented
   end.
 
-(* ---------- BytesIOReader with bytes_remaining() [F4a] ----------
+(* ---------- BytesIOReader with bytes_remaining() [F4i] ----------
    The stream interpreter of base/Prog.v answers BytesLeft with bytes_left() (fetched bytes only).  The
    repaired read_v0_1 asks bytes_remaining() = reader.seek(0, 2) - read_offset, so the legacy checks run the
    same interpreter with that one case changed; on programs without BytesLeft the two coincide
